@@ -185,16 +185,23 @@ impl<'a> JsonTokenizer<'a> {
 
         while let Ok(c) = self.read() {
             if escape {
-                // Handle escape sequences
+                // Handle escape sequences (RFC 8259, section 7)
                 match c {
                     '\\' => result.push('\\'),
                     '"' => result.push('"'),
+                    '/' => result.push('/'),
+                    'b' => result.push('\u{0008}'),
+                    'f' => result.push('\u{000C}'),
                     'n' => result.push('\n'),
-                    // 't' => result.push('\t'),
-                    // 'r' => result.push('\r'),
-                    // Add other escape sequences as needed
-                    // _ => result.push(c), // Push the character as is if unknown escape
-                    _ => {}
+                    'r' => result.push('\r'),
+                    't' => result.push('\t'),
+                    'u' => result.push(self.read_unicode_escape()?),
+                    _ => {
+                        return Err(io::Error::new(
+                            io::ErrorKind::InvalidData,
+                            format!("Invalid escape sequence '\\{}'", c),
+                        ));
+                    }
                 }
                 escape = false;
             } else if c == '\\' {
@@ -215,6 +222,56 @@ impl<'a> JsonTokenizer<'a> {
                 "Unterminated string",
             ))
         }
+    }
+
+    /// Reads the rest of a `\uXXXX` escape (the `\u` has already been consumed).
+    /// A UTF-16 high surrogate must be followed by an escaped low surrogate;
+    /// the pair is combined into a single character.
+    fn read_unicode_escape(&mut self) -> io::Result<char> {
+        let first = self.read_hex4()?;
+
+        let code = if (0xD800..=0xDBFF).contains(&first) {
+            if self.read()? != '\\' || self.read()? != 'u' {
+                return Err(io::Error::new(
+                    io::ErrorKind::InvalidData,
+                    "Unpaired surrogate in unicode escape",
+                ));
+            }
+
+            let second = self.read_hex4()?;
+
+            if !(0xDC00..=0xDFFF).contains(&second) {
+                return Err(io::Error::new(
+                    io::ErrorKind::InvalidData,
+                    "Unpaired surrogate in unicode escape",
+                ));
+            }
+
+            0x10000 + ((first - 0xD800) << 10) + (second - 0xDC00)
+        } else {
+            first
+        };
+
+        // A lone low surrogate is not a character.
+        char::from_u32(code).ok_or_else(|| {
+            io::Error::new(
+                io::ErrorKind::InvalidData,
+                "Unpaired surrogate in unicode escape",
+            )
+        })
+    }
+
+    fn read_hex4(&mut self) -> io::Result<u32> {
+        let mut value = 0;
+
+        for _ in 0..4 {
+            let digit = self.read()?.to_digit(16).ok_or_else(|| {
+                io::Error::new(io::ErrorKind::InvalidData, "Invalid unicode escape")
+            })?;
+            value = value * 16 + digit;
+        }
+
+        Ok(value)
     }
 
     fn read_until_separator(&mut self) -> io::Result<String> {
@@ -305,5 +362,33 @@ impl<'a> JsonTokenizer<'a> {
                 Ok(JsonValue::Number(n))
             }
         }
+    }
+}
+
+#[cfg(test)]
+mod tests {
+    use super::*;
+
+    fn read(s: &str) -> io::Result<String> {
+        JsonTokenizer::new_from_str(s).read_string()
+    }
+
+    #[test]
+    fn string_escapes() {
+        assert_eq!(
+            read(r#""q\" bs\\ sl\/ \b\f\n\r\t""#).unwrap(),
+            "q\" bs\\ sl/ \u{8}\u{c}\n\r\t"
+        );
+        assert_eq!(read(r#""\u00e9\u00E9\u20ac""#).unwrap(), "\u{e9}\u{e9}\u{20ac}");
+        assert_eq!(read(r#""\ud83d\ude00!""#).unwrap(), "\u{1f600}!");
+    }
+
+    #[test]
+    fn invalid_string_escapes() {
+        assert!(read(r#""\x""#).is_err());
+        assert!(read(r#""\u12""#).is_err());
+        assert!(read(r#""\ud83d""#).is_err());
+        assert!(read(r#""\ud83dx""#).is_err());
+        assert!(read(r#""\ude00""#).is_err());
     }
 }
